@@ -4507,6 +4507,35 @@ M('C08', 'sigv4-signature-unbounded-again', PK, '        send = self.header.leng
   '        self.signature.parse(packet)\n', 'C08.d', more=[(SS, '        self._sig.header.length = self.header.length - 1\n        self._sig.parse(packet)\n', '        self._sig.parse(packet)\n')])
 M('C08', 'sigv4-signature-in-place-only', PK, '        send = self.header.length - 1 - (plen - len(packet))\n        self.signature.parse(packet[:send])\n        del packet[:send]\n',
   '        self.signature.parse(packet)\n', 'C08.d')
+# wave 6: subpacket header identity (C08.i), integer fields keep their wire range (C08.c), slice-assignment prepend (C08.d)
+M('C08', 'subheader-critical-from-masked-typeid', ST, '        v = self.bytes_to_int(val)\n        self.typeid = v\n        self.critical = bool(v & 0x80)\n',
+  '        self.typeid = self.bytes_to_int(val)\n        self.critical = bool(self.typeid & 0x80)\n', 'C08.i')
+M('C08', 'subheader-critical-bit-6', ST, '        v = self.bytes_to_int(val)\n        self.typeid = v\n        self.critical = bool(v & 0x80)\n',
+  '        v = self.bytes_to_int(val)\n        self.typeid = v\n        self.critical = bool(v & 0x40)\n', 'C08.i')
+M('C08', 'subheader-critical-dropped', ST, '        v = self.bytes_to_int(val)\n        self.typeid = v\n        self.critical = bool(v & 0x80)\n',
+  '        v = self.bytes_to_int(val)\n        self.typeid = v\n', 'C08.i')
+M('C08', 'subheader-writer-critical-shift-6', ST, '(int(self.critical) << 7) + self.typeid',
+  '(int(self.critical) << 6) + self.typeid', 'C08.i')
+T('C08', 'twin-subheader-critical-shift', ST, '        v = self.bytes_to_int(val)\n        self.typeid = v\n        self.critical = bool(v & 0x80)\n',
+  '        octet = self.bytes_to_int(val)\n        self.critical = (octet >> 7) == 1\n        self.typeid = octet\n')
+M('C08', 'sigv4-halg-unknown-to-invalid', PK, '        except ValueError:  # pragma: no cover\n            self._halg = val\n\n    @property\n    def signature(self):',
+  '        except ValueError:  # pragma: no cover\n            self._halg = HashAlgorithm.Invalid\n\n    @property\n    def signature(self):', 'C08.c')
+M('C08', 'sigv4-halg-unknown-masked', PK, '        except ValueError:  # pragma: no cover\n            self._halg = val\n\n    @property\n    def signature(self):',
+  '        except ValueError:  # pragma: no cover\n            self._halg = val & 0x0f\n\n    @property\n    def signature(self):', 'C08.c')
+M('C08', 'trustsig-amount-clamp-120', SS, '        self._amount = max(0, min(val, 255))',
+  '        self._amount = max(0, min(val, 120))', 'C08.c')
+M('C08', 'trustsig-level-clamp-2', SS, '    def level_int(self, val):\n        self._level = val\n',
+  '    def level_int(self, val):\n        self._level = min(val, 2)\n', 'C08.c')
+M('C08', 'trustsig-amount-floor-1', SS, '        self._amount = max(0, min(val, 255))',
+  '        self._amount = max(1, min(val, 255))', 'C08.c')
+T('C08', 'twin-trustsig-amount-clamp-respelled', SS, '        self._amount = max(0, min(val, 255))',
+  '        amount = val\n        if amount > 255:\n            amount = 255\n        if amount < 0:\n            amount = 0\n        self._amount = amount')
+T('C08', 'twin-skesk-prepend-slice-assign', PK, '        packet.insert(0, 255)\n',
+  "        packet[:0] = b'\\xff'\n")
+M('C08', 'skesk-prepend-two-octets', PK, '        packet.insert(0, 255)\n',
+  "        packet[:0] = b'\\xff\\xff'\n", 'C08.d')
+M('C08', 'skesk-prepend-remainder-minus-1', PK, '        packet.insert(0, 255)\n',
+  "        packet[:0] = b'\\xff'\n", 'C08.d', more=[(PK, '        ctend = self.header.length - len(self.s2k)\n', '        ctend = self.header.length - len(self.s2k) - 1\n')])
 # --- end C08 hardening
 M('C09', 'old-tag-shift', PT, "        tag |= (self.tag) if self._lenfmt else ((self.tag << 2) | {1: 0, 2: 1, 4: 2, 0: 3}[self.llen])", "        tag |= (self.tag) if self._lenfmt else ((self.tag << 1) | {1: 0, 2: 1, 4: 2, 0: 3}[self.llen])", 'C09.8')
 M('C09', 'tag-mask-1f', PT, "        _tag = (val & 0x3F) if self._lenfmt else ((val & 0x3C) >> 2)", "        _tag = (val & 0x1F) if self._lenfmt else ((val & 0x3C) >> 2)", 'C09.8')
@@ -5260,3 +5289,22 @@ T('C18', 'twin-intended-recipient-one-shared-call', PGP, _IR,
   "                recipient_fpr = intended_recipient.fingerprint\n            elif isinstance(intended_recipient, Fingerprint):\n                recipient_fpr = intended_recipient\n            else:\n                warnings.warn(\"Intended Recipient is not a PGPKey, ignoring\")\n                continue\n\n            sig._signature.subpackets.addnew('IntendedRecipient', hashed=True, version=4,\n                                             intended_recipient=recipient_fpr)\n")
 M('C18', 'intended-recipient-shared-call-one-arm-derived', PGP, _IR,
   "                recipient_fpr = (intended_recipient.parent or intended_recipient).fingerprint\n            elif isinstance(intended_recipient, Fingerprint):\n                recipient_fpr = intended_recipient\n            else:\n                warnings.warn(\"Intended Recipient is not a PGPKey, ignoring\")\n                continue\n\n            sig._signature.subpackets.addnew('IntendedRecipient', hashed=True, version=4,\n                                             intended_recipient=recipient_fpr)\n", 'C18.7')
+
+# =============================================================================================== C18 wave 6 (w5 seeded shapes, twin C18-ref19)
+_PUBKEY_BODY = ("        pk = PubKeyV4() if not isinstance(self, PrivSubKeyV4) else PubSubKeyV4()\n        pk.created = self.created\n        pk.pkalg = self.pkalg\n\n        # copy over MPIs\n        for pm in self.keymaterial.__pubfields__:\n            setattr(pk.keymaterial, pm, copy.copy(getattr(self.keymaterial, pm)))\n\n        if self.pkalg in {PubKeyAlgorithm.ECDSA, PubKeyAlgorithm.EdDSA}:\n            pk.keymaterial.oid = self.keymaterial.oid\n\n        if self.pkalg == PubKeyAlgorithm.ECDH:\n            pk.keymaterial.oid = self.keymaterial.oid\n            pk.keymaterial.kdf = copy.copy(self.keymaterial.kdf)\n\n        pk.update_hlen()\n        return pk\n")
+_HELPER = ("\n    def _copy_public_half_to(self, pk):\n        pk.created = %s\n        pk.pkalg = self.pkalg\n        src, dst = self.keymaterial, pk.keymaterial\n        for pm in src.__pubfields__:\n            setattr(dst, pm, copy.copy(getattr(src, pm)))\n        if self.pkalg in {PubKeyAlgorithm.ECDSA, PubKeyAlgorithm.EdDSA, PubKeyAlgorithm.ECDH}:\n            dst.oid = src.oid\n        if self.pkalg == PubKeyAlgorithm.ECDH:\n            dst.kdf = copy.copy(src.kdf)\n        return pk\n")
+_NEWBODY = "        twin = PubSubKeyV4 if isinstance(self, PrivSubKeyV4) else PubKeyV4\n        pk = self._copy_public_half_to(twin())\n        pk.update_hlen()\n        return pk\n"
+T('C18', 'twin-pubkey-body-in-new-base-method', PK, _PUBKEY_BODY, _NEWBODY + _HELPER % 'self.created')
+M('C18', 'pubkey-new-base-method-created-of-target', PK, _PUBKEY_BODY, _NEWBODY + _HELPER % 'pk.created', 'C18')
+M('C18', 'table-drops-algorithm-20', PK, "            (True, PubKeyAlgorithm.FormerlyElGamalEncryptOrSign): ElGPub,\n", "", 'C18.3',
+  more=[(PK, "            (False, PubKeyAlgorithm.FormerlyElGamalEncryptOrSign): ElGPriv,\n", "")])
+M('C18', 'table-drops-private-eddsa-only', PK, "            (False, PubKeyAlgorithm.EdDSA): EdDSAPriv,\n", "", 'C18.3')
+T('C18', 'twin-created-readers-temporaries', PK, "        self.created = datetime.fromtimestamp(val, timezone.utc)", "        seconds = val\n        when = datetime.fromtimestamp(seconds, tz=timezone.utc)\n        self.created = when",
+  more=[(PK, "    def created_bin(self, val):\n        self.created = self.bytes_to_int(val)", "    def created_bin(self, val):\n        seconds = self.bytes_to_int(val)\n        self.created = seconds")])
+M('C18', 'created-future-time-clamped-to-now', PK, "        self.created = datetime.fromtimestamp(val, timezone.utc)",
+  "        created = datetime.fromtimestamp(val, timezone.utc)\n        now = datetime.now(timezone.utc)\n        if created > now:\n            created = now\n        self.created = created", 'C18.5')
+M('C18', 'created-zero-defaults-to-now', PK, "        self.created = datetime.fromtimestamp(val, timezone.utc)", "        self.created = datetime.fromtimestamp(val, timezone.utc) if val else datetime.now(timezone.utc)", 'C18.5')
+M('C18', 'created-read-as-local-time', PK, "        self.created = datetime.fromtimestamp(val, timezone.utc)", "        self.created = datetime.fromtimestamp(val)", 'C18.5')
+M('C18', 'created-octets-little-endian', PK, "    def created_bin(self, val):\n        self.created = self.bytes_to_int(val)", "    def created_bin(self, val):\n        self.created = self.bytes_to_int(val, 'little')", 'C18.5')
+M('C18', 'created-datetime-truncated-to-day', PK, "            warnings.warn(\"Passing TZ-naive datetime object to PubKeyV4 packet\")\n        self._created = val", "            warnings.warn(\"Passing TZ-naive datetime object to PubKeyV4 packet\")\n        self._created = val.replace(hour=0, minute=0, second=0)", 'C18.5')
+M('C18', 'fp-length-from-header-for-public', PK, "        plen = self.keymaterial.publen()\n        bcde_len = self.int_to_bytes(6 + plen, 2)", "        plen = self.keymaterial.publen()\n        bcde_len = self.int_to_bytes(self.header.length if self.public else 6 + plen, 2)", 'C18.1')
